@@ -14,6 +14,7 @@ import (
 	"net"
 	"os"
 	"strconv"
+	"strings"
 	"time"
 
 	"github.com/vmware/go-ipfix/pkg/entities"
@@ -86,6 +87,19 @@ func (p *peer) read(n int) []byte {
 		return nil
 	}
 	return buf[:k]
+}
+
+// away closes the collector's UDP socket; back re-opens it on the same port (false if somebody else took the port).
+func (p *peer) away() { p.udp.Close() }
+func (p *peer) back() bool {
+	ua, _ := net.ResolveUDPAddr("udp", p.addr)
+	c, err := net.ListenUDP("udp", ua)
+	if err != nil {
+		return false
+	}
+	c.SetReadBuffer(8 << 20)
+	p.udp = c
+	return true
 }
 
 // drain returns anything else that arrives within d.
@@ -199,6 +213,7 @@ func (s setDesc) buildInto(set entities.Set) entities.Set {
 }
 
 type session struct {
+	away    bool         // the harness has closed the collector's UDP socket: nothing can be read, writes may be refused
 	recycle entities.Set // when set: every set handed to SendSet is this one object, recycled with ResetSet
 	w       *vt.Writer
 	p       *peer
@@ -257,6 +272,14 @@ func (s *session) sendPre(d setDesc, pre entities.Set) {
 		n, err := s.ep.SendSet(set)
 		t1 := time.Now().Unix()
 		ev["t0"], ev["t1"], ev["ret"], ev["err"] = int(t0), int(t1), n, err != nil
+		if err != nil && strings.Contains(err.Error(), "connection refused") {
+			ev["refused"] = true
+		}
+		if s.away {
+			ev["away"] = true
+			ev["wire"] = []int{}
+			return
+		}
 		if s.json {
 			raw := []byte{}
 			if err == nil && n > 0 {
@@ -615,6 +638,32 @@ func main() {
 			for k := 0; k < 3; k++ {
 				time.Sleep(300 * time.Millisecond)
 				s.send(dataSet(r, 256, ies, 1+r.Intn(3), 10, 60000))
+			}
+			s.end()
+			evals += s.evals
+		}
+		// the UDP collector goes away and comes back on the same port: what was written meanwhile vanished or was
+		// refused (outside the statement); every message sent successfully afterwards carries the right counter
+		for k := 0; k < 2; k++ {
+			s := newSession(w, "udp", r.Uint32(), 0, dist)
+			ies := []*entities.InfoElement{u8, str}
+			s.send(tmplSet(256, ies))
+			s.send(dataSet(r, 256, ies, 2, 10, 60000))
+			s.p.away()
+			s.away = true
+			s.send(dataSet(r, 256, ies, 1+r.Intn(3), 10, 60000)) // vanishes; the kernel learns that the port is closed
+			time.Sleep(30 * time.Millisecond)
+			if k == 1 {
+				s.send(dataSet(r, 256, ies, 1, 10, 60000)) // refused
+			}
+			if !s.p.back() {
+				s.p.udp, _ = net.ListenUDP("udp", &net.UDPAddr{IP: net.IPv4(127, 0, 0, 1)}) // (only to have something to close)
+				s.end()
+				continue
+			}
+			s.away = false
+			for q := 0; q < 4; q++ {
+				s.send(dataSet(r, 256, ies, 1+r.Intn(3), 10, 60000)) // the first may still be refused (an earlier datagram's error)
 			}
 			s.end()
 			evals += s.evals
